@@ -2880,13 +2880,34 @@ class WBEMConnection:  # pylint: disable=too-many-instance-attributes
                                                  namespace)
         return (rtn_objects, end_of_sequence, rtn_ctxt)
 
+    def _unpack_object_elements(self, result):
+        """
+        Return the list of objects from the parsed IRETURNVALUE element of an
+        operation that returns its objects in VALUE.OBJECTWITHPATH,
+        VALUE.OBJECTWITHLOCALPATH, VALUE.OBJECT or OBJECTPATH elements.
+        These elements have been parsed into tuples (name, attributes, object).
+        """
+        objects = []
+        if result is not None:
+            for item in result[0][2]:
+                if not isinstance(item, tuple):
+                    raise CIMXMLParseError(
+                        _format("Expecting VALUE.OBJECTWITHPATH, "
+                                "VALUE.OBJECTWITHLOCALPATH, VALUE.OBJECT or "
+                                "OBJECTPATH child elements of IRETURNVALUE, "
+                                "got a child element parsed into a {0} "
+                                "object", item.__class__.__name__),
+                        conn_id=self.conn_id)
+                objects.append(item[2])
+        return objects
+
     def _get_returned_objects(self, result, ObjectName):
         """
         Support for Associators, References operations
         Get returned objects and validate that the types correspond to the types
         for Associators and References
         """
-        objects = [] if result is None else [x[2] for x in result[0][2]]
+        objects = self._unpack_object_elements(result)
 
         if isinstance(ObjectName, CIMInstanceName):
             # instance-level invocation
@@ -2897,9 +2918,21 @@ class WBEMConnection:  # pylint: disable=too-many-instance-attributes
                                 "list, got {0} object",
                                 instance.__class__.__name__),
                         conn_id=self.conn_id)
+                if instance.path is None:
+                    raise CIMXMLParseError(
+                        "Expecting CIMInstance object with instance path in "
+                        "result list, got instance without path",
+                        conn_id=self.conn_id)
         else:
             # class-level invocation
-            for classpath, klass in objects:
+            for obj in objects:
+                if not isinstance(obj, tuple):
+                    raise CIMXMLParseError(
+                        _format("Expecting tuple (CIMClassName, CIMClass) "
+                                "in result list, got {0} object",
+                                obj.__class__.__name__),
+                        conn_id=self.conn_id)
+                classpath, klass = obj
                 if not isinstance(classpath, CIMClassName) or \
                         not isinstance(klass, CIMClass):
                     raise CIMXMLParseError(
@@ -2918,7 +2951,7 @@ class WBEMConnection:  # pylint: disable=too-many-instance-attributes
         CIMInstanceName if the request was CIMInstanceName or
         CIMClassName if the request was CIMClassName
         """
-        objects = [] if result is None else [x[2] for x in result[0][2]]
+        objects = self._unpack_object_elements(result)
 
         if isinstance(ObjectName, CIMInstanceName):
             # instance-level invocation
